@@ -155,8 +155,94 @@ def judge(run: Run, res, dests) -> None:
             run.report("stale|%s|back-again" % dest, dict(case, direction=label + "->back"), "A,B,A: third run differs from the cold run with A: %s vs %s" % (third[1][:4], s["expected_first"][1][:4]))
 
 
+
+# ---------------------------------------------------------------- cache store / format flags alternating over an edit history
+STORE_CONFIGS = {
+    "sqlite-binary": ["--sqlite-cache", "--fixed-format-cache"],
+    "sqlite-json": ["--sqlite-cache", "--no-fixed-format-cache"],
+    "fs-binary": ["--no-sqlite-cache", "--fixed-format-cache"],
+    "fs-json": ["--no-sqlite-cache", "--no-fixed-format-cache"],
+}
+
+
+def eval_alternation(arg):
+    """One G2 edit history checked on ONE cache directory while the store/format flags change from run to run:
+    each configuration finds records it wrote several edits ago (or none). Every run must equal a cold run
+    made with the same flags."""
+    import copy
+
+    from vp import histrun
+    from vp.gen import project
+    from vp.props.c10 import make_acyclic
+    from vp.props.c03 import history_from
+
+    seed, nmods, nsteps = arg[:3]
+    pre = arg[3] if len(arg) > 3 else None
+    rnd = random.Random(seed ^ 0xA17)
+    if pre:
+        st0, ops, order = pre
+    else:
+        st_init, _ = project.history(seed, nmods, 0)
+        st0 = make_acyclic(st_init)
+        ops = history_from(st0, seed, nsteps, "acyclic-batch")
+        names = sorted(STORE_CONFIGS)
+        order = [rnd.choice(names) for _ in range(len(ops) + 1)]
+    root = mypyrun.scratch("c09alt")
+    shared = mypyrun.scratch("c09altcache")
+    recs = []
+    try:
+        # the shared directory starts with the typeshed records of the FIRST configuration only; the others find nothing
+        mypyrun.seed_for(histrun.COMMON + STORE_CONFIGS[order[0]], "c02").copy_to(shared)
+        proj = histrun.Project(root)
+        st = copy.deepcopy(st0)
+        for step in range(len(ops) + 1):
+            if step > 0:
+                project.apply_edit(st, ops[step - 1])
+            proj.sync(project.render(st), project.unlisted_paths(st))
+            targets = proj.targets()
+            flags = STORE_CONFIGS[order[step]]
+            cdir = mypyrun.scratch("c09altcold")
+            try:
+                mypyrun.seed_for(histrun.COMMON + flags, "c02").copy_to(cdir)
+                coldr = histrun.run(root, targets, flags, cdir)
+            finally:
+                mypyrun.rmtree(cdir)
+            warm = histrun.run(root, targets, flags, shared)
+            rec = {"step": step, "config": order[step], "since": next((k for k in range(1, step + 1) if order[step - k] == order[step]), None), "problem": None}
+            if histrun.crashed(warm) and not histrun.crashed(coldr):
+                rec["problem"] = ("crash", (warm["err"] + warm["raw"])[-1500:], [])
+            elif not histrun.crashed(coldr):
+                d = histrun.compare(warm, coldr)
+                if d and d[0] not in ("same-line-order", "advisory-note-placement"):
+                    rec["problem"] = (d[0], d[1], d[2] if len(d) > 2 else [])
+            recs.append(rec)
+    finally:
+        mypyrun.rmtree(root)
+        mypyrun.rmtree(shared)
+    return {"seed": seed, "nmods": nmods, "nsteps": nsteps, "st0": st0, "ops": ops, "order": order, "recs": recs}
+
+
+def judge_alternation(run: Run, res) -> None:
+    for rec in res["recs"]:
+        run.count()
+        run.label("alternation_steps")
+        if rec["since"] and rec["since"] > 1:
+            # this configuration last wrote its records two or more edits ago
+            run.nontriv(chash(["alt", res["seed"], rec["step"]]))
+            run.label("alternation_steps_with_records_older_than_one_edit")
+        if rec["problem"]:
+            klass, detail, codes = rec["problem"]
+            case = {"alternation": True, "seed": res["seed"], "nmods": res["nmods"], "nsteps": res["nsteps"], "st0": res["st0"], "ops": res["ops"][: rec["step"]], "order": res["order"][: rec["step"] + 1]}
+            run.report("store-alternation|%s|%s" % (klass, ",".join(codes[:3]) or "-"), case, "history seed %d, step %d run with %s on a cache directory shared with %s: differs from a cold run with the same flags: %s" % (res["seed"], rec["step"], rec["config"], sorted(set(res["order"][: rec["step"]])), detail[-1500:]))
+
+
 def replay(run: Run, case: dict, origin: str | None = None) -> bool:
     before = len(run.violations)
+    if case.get("alternation"):
+        res = eval_alternation((case["seed"], case["nmods"], case["nsteps"], (case["st0"], case["ops"], case["order"])))
+        res["recs"] = res["recs"][-1:]
+        judge_alternation(run, res)
+        return len(run.violations) == before
     if case.get("cfg"):
         files = {k: v for k, v in case["files"].items() if not k.startswith("cfg")}
         res = eval_witness((case.get("name", "replay"), files, [], 0, True, case.get("fixtures", {}), case["cfg"]))
@@ -175,9 +261,11 @@ def run(run: Run) -> None:
     run.rule = (
         "for every option flag occurring in a `# flags:` line of the check-*.test corpus: up to %d (program, flag) candidates; a candidate whose cold outputs with and without the flag differ is a witness; "
         "for each witness run A then B (and A again) on one cache directory, in both directions, and compare the second (third) run with the cold run under the same options. "
-        "Non-trivial: cold(A) != cold(B) (the option visibly matters for that program)." % per_flag
+        "Non-trivial: cold(A) != cold(B) (the option visibly matters for that program). "
+        "Second part: G2 edit histories (acyclic projects, real typeshed) checked on ONE cache directory while the cache store and format flags ({sqlite,files} x {binary,JSON}) change at random from run to run, every run compared with a cold run under the same flags; "
+        "non-trivial there: the configuration of the step last wrote its records two or more edits earlier." % per_flag
     )
-    run.assumptions = ["documented unsafe opt-ins (--skip-cache-mtime-checks, --skip-version-check, --bazel) and program-selecting options are excluded", "programs are built like the repository's own check tests (lib-stub builtins fixtures instead of the full typeshed): cold = empty cache directory"]
+    run.assumptions = ["documented unsafe opt-ins (--skip-cache-mtime-checks, --skip-version-check, --bazel) and program-selecting options are excluded", "programs are built like the repository's own check tests (lib-stub builtins fixtures instead of the full typeshed): cold = empty cache directory", "store/format alternation: cold = typeshed-only seed cache for the same flags"]
     rnd = random.Random(run.seed)
     dests = flag_dest()
     by_flag: dict[str, list] = {}
@@ -224,6 +312,12 @@ def run(run: Run) -> None:
             if n % 12 == 1:
                 run.sample({"flag": res["flag"], "value": res["value"], "program": res["name"], "cold_with": res["coldA"][1][:3], "cold_without": res["coldB"][1][:3]})
         if run.out_of_time(260 if q else 3000):
+            break
+    # cache store / format flags alternating over edit histories on one shared cache directory
+    awork = [(run.seed * 1000 + i, 4 + i % 3, 6) for i in range(6 if q else 120)]
+    for res in pmap(eval_alternation, awork, recycle=4):
+        judge_alternation(run, res)
+        if run.out_of_time(280 if q else 3400):
             break
     all_dests = sorted({d for s, d in dests.items() if s.startswith("--") and not d.startswith("special-opts")})
     covered = sorted({dests[f] for f in witnessed})
